@@ -1,0 +1,83 @@
+//! Verification hooks (only compiled with `--cfg boa_verif`).
+//!
+//! Switches that force the compiler's and the VM's shortcuts to their conservative
+//! choice, and read-only probes of VM state for external monitors.
+
+use crate::Context;
+use std::cell::Cell;
+
+thread_local! {
+    static IC_OFF: Cell<bool> = const { Cell::new(false) };
+    static CONST_CACHE_OFF: Cell<bool> = const { Cell::new(false) };
+    static LOOP_HOIST_OFF: Cell<bool> = const { Cell::new(false) };
+    static FUSED_BRANCH_OFF: Cell<bool> = const { Cell::new(false) };
+    static IC_HITS: Cell<u64> = const { Cell::new(0) };
+}
+
+/// Make `InlineCache::get` miss and `InlineCache::set` do nothing.
+pub fn set_ic_off(on: bool) {
+    IC_OFF.with(|c| c.set(on));
+}
+/// Do not cache non-local `const` bindings in registers.
+pub fn set_const_cache_off(on: bool) {
+    CONST_CACHE_OFF.with(|c| c.set(on));
+}
+/// Do not hoist loop-invariant operands of loop conditions.
+pub fn set_loop_hoist_off(on: bool) {
+    LOOP_HOIST_OFF.with(|c| c.set(on));
+}
+/// Do not fuse relational comparisons with branches.
+pub fn set_fused_branch_off(on: bool) {
+    FUSED_BRANCH_OFF.with(|c| c.set(on));
+}
+
+pub(crate) fn ic_off() -> bool {
+    IC_OFF.with(Cell::get)
+}
+pub(crate) fn const_cache_off() -> bool {
+    CONST_CACHE_OFF.with(Cell::get)
+}
+pub(crate) fn loop_hoist_off() -> bool {
+    LOOP_HOIST_OFF.with(Cell::get)
+}
+pub(crate) fn fused_branch_off() -> bool {
+    FUSED_BRANCH_OFF.with(Cell::get)
+}
+pub(crate) fn ic_hit() {
+    IC_HITS.with(|c| c.set(c.get() + 1));
+}
+/// Number of inline cache hits on this thread so far.
+#[must_use]
+pub fn ic_hits() -> u64 {
+    IC_HITS.with(Cell::get)
+}
+
+/// Depths of the VM's stacks, for conservation checks at the host boundary.
+#[derive(Debug, Clone, Copy, PartialEq, Eq)]
+pub struct VmDepths {
+    /// Number of call frames (the dummy frame included).
+    pub frames: usize,
+    /// Length of the value stack.
+    pub value_stack: usize,
+    /// Whether an exception is pending.
+    pub pending_exception: bool,
+    /// Nested host calls.
+    pub host_call_depth: usize,
+    /// Length of the binding-reference stack of the current frame.
+    pub binding_stack: usize,
+    /// Number of environments on the current frame's environment stack.
+    pub environments: usize,
+}
+
+/// Returns the depths of the VM's stacks.
+#[must_use]
+pub fn vm_depths(context: &Context) -> VmDepths {
+    VmDepths {
+        frames: context.vm.frames.len(),
+        value_stack: context.vm.stack.verif_len(),
+        pending_exception: context.vm.pending_exception.is_some(),
+        host_call_depth: context.vm.host_call_depth,
+        binding_stack: context.vm.frame().binding_stack.len(),
+        environments: context.vm.frame().environments.len(),
+    }
+}
